@@ -32,6 +32,8 @@ pub struct Nlp {
     nump: u8,
 
     /// Node, lap and position of each player.
+    // Size is 4 + NumP * 6, plus 2 if needed to make it a multiple of 4
+    #[brw(pad_after = (nump as usize % 2) * 2)]
     #[br(count = nump)]
     pub info: Vec<NodeLapInfo>,
 }
